@@ -371,7 +371,21 @@ def run_impl(c, x):
     """returns ('ok', ndarray) or ('err', class name)"""
     post = post_mod()
     try:
-        if c["op"] == "deltas":
+        # one case in four is built through the documented configuration route (a mapping handed to
+        # alias_factory_subclass_from_arg, as the command-line tools do) instead of by calling the class; which ones
+        # is a function of the case, not of the RNG
+        import json as _json, zlib as _zlib
+        via_config = _zlib.crc32(_json.dumps(c, sort_keys=True, default=str).encode()) % 4 == 0
+        if via_config:
+            from pydrobert.speech.alias import alias_factory_subclass_from_arg
+            if c["op"] == "deltas":
+                m = dict(alias="deltas", num_deltas=c["num_deltas"], target_axis=c["target_axis"], concatenate=c["concatenate"],
+                         context_window=c["context_window"], pad_mode=c["pad_mode"], **np_pad_kwargs(c["pad_kwargs"]))
+            else:
+                m = dict(name="stack", num_vectors=c["num_vectors"], time_axis=c["time_axis"], pad_mode=c["pad_mode"],
+                         **np_pad_kwargs(c["pad_kwargs"]))
+            o = alias_factory_subclass_from_arg(post.PostProcessor, m)
+        elif c["op"] == "deltas":
             o = post.Deltas(c["num_deltas"], c["target_axis"], c["concatenate"], c["context_window"],
                             c["pad_mode"], **np_pad_kwargs(c["pad_kwargs"]))
         else:
